@@ -10,26 +10,46 @@
   PARSE (the MD5 is any function `digest` producing 16 bytes)
   * `parse_encode`            — intended parser ∘ encoder = view, for EVERY well-formed image:
                                 any number of records of every type, any firmware length < 2^32,
-                                0..65535 OEM bytes, any description bytes.
+                                0..65535 OEM bytes (the OEM data field is reported for length 0 as
+                                well, as the empty byte string), any description bytes.
   * `parse_encode_as_shipped` — the parser as shipped in the pinned tree is right on the images
-                                that have no OEM data and no backslash in a description …
+                                that have no OEM data and no backslash in a description - but for
+                                the OEM data field itself, which the result then does not have …
+  * `shipped_oem_missing_counterexample`, `shipped_oem_missing_witness`
+                              — … (`if self.oem_data_length: self.oem_data = …`): EVERY well-formed
+                                image without OEM data is reported without the field, also after
+                                the two repairs below, concretely `witnessDesc`;
   * `shipped_oem_counterexample`, `shipped_oem_witness`
-                              — … and wrong on EVERY well-formed image that has OEM data
+                              — and wrong on EVERY well-formed image that has OEM data
                                 (`oem_data = data[34:-1]`), concretely on `witnessOem`;
   * `shipped_description_witness`, `intended_description_witness`
                               — and fails with UnicodeDecodeError on the well-formed `witnessDesc`
                                 (description `fw\update 1.0`), which the intended parser reads.
-  UPLOAD (any virtual-clock timing `timeout > 0`, `interval`, per-request latency, retry budget)
+  UPLOAD (any virtual-clock timing `timeout > 0`, `interval`, per-request latency, retry budget;
+  a block the device accepts with 80h is followed by `k` status answers 80h and then by the final
+  code `f` of the long duration command; poll number k is made k·(lat+interval) ticks after the
+  block's answer, so the final code is seen in time iff k·(lat+interval) < timeout)
   * `chunks_spec`             — chunks concatenate to the data, each 1..n bytes long
   * `upload_exact`            — for every binary and EVERY plan answering each block with OK or
-                                "in progress" (any number of further in-progress polls, also more
-                                than the time-out allows): upload returns, the recorded blocks
-                                concatenate to the binary, block i is numbered i mod 256 and is
-                                1..L bytes long, and the request right after a block answered 80h
-                                is a status poll
+                                "in progress" ending with 00h in time: upload returns, the recorded
+                                blocks concatenate to the binary, block i is numbered i mod 256 and
+                                is 1..L bytes long, the request right after a block answered 80h
+                                is a status poll, and the next block follows only after the poll
+                                that reported the final 00h
   * `upload_aborts`           — first block answered with another code c at index j: HpmError,
                                 exactly blocks 0..j were sent (a correctly numbered prefix of the
                                 binary) and nothing after the rejected block
+  * `upload_aborts_long_failure` — block j accepted with 80h, the status then reports a final code
+                                other than 00h: HpmError, blocks 0..j sent, after block j only its
+                                k+1 status polls
+  * `upload_aborts_long_timeout` — block j accepted with 80h and still 80h when the time-out
+                                expires: HpmError, blocks 0..j sent, after block j only status
+                                polls (at least one, at most k: the final code was never seen)
+  * `shipped_upload_ignores_status`, `shipped_upload_witness`
+                              — the loop as shipped returns normally and sends every block
+                                WHATEVER the status polls report (final code FFh, time-out):
+                                concretely 50 bytes, block 1 → 80h → status FFh, block 2 is sent and
+                                the upload "succeeds"; the intended loop ends with HpmError there
   * `upload_configured`       — the generated block size is positive and fits the device limit 22;
                                 `upload_exact_configured` instantiates `upload_exact` with it
 -/
@@ -51,25 +71,42 @@ theorem parse_encode (digest : List Nat → List Nat) (hdig : ∀ x, (digest x).
     (fun r _ => by cases r <;> simp [descPlain, Variant.intended]) hdig]
   by_cases hz : img.header.oem.length = 0
   · have : img.header.oem = [] := List.length_eq_zero_iff.mp hz
-    simp [Image.view, Header.view, this]
+    simp [Variant.intended, Image.view, Header.view, this]
   · simp [hz, Variant.intended, Image.view, Header.view]
 
 /-- no OEM data in the header and no backslash in any firmware description -/
 def plainImage (img : Image) : Prop :=
   img.header.oem = [] ∧ ∀ r ∈ img.records, descPlain .asShipped r
 
+/-- the view without the OEM data field -/
+def withoutOemField (v : ImageView) : ImageView := { v with header := { v.header with oemPresent := false } }
+
 theorem parse_encode_as_shipped (digest : List Nat → List Nat) (hdig : ∀ x, (digest x).length = 16)
     (img : Image) (hwf : img.wf) (hp : plainImage img) :
-    parseImage .asShipped (encodeImage digest img) = .ok (img.view digest) := by
+    parseImage .asShipped (encodeImage digest img) = .ok (withoutOemField (img.view digest)) := by
   rw [parseImage_encode .asShipped digest img hwf hp.2 hdig]
-  simp [hp.1, Image.view, Header.view]
+  simp [hp.1, Image.view, Header.view, withoutOemField, Variant.asShipped]
+
+/-- With `if self.oem_data_length: self.oem_data = …` (everything else as intended) EVERY
+well-formed image WITHOUT OEM data is reported without the OEM data field. -/
+theorem shipped_oem_missing_counterexample (digest : List Nat → List Nat) (hdig : ∀ x, (digest x).length = 16)
+    (img : Image) (hwf : img.wf) (hoem : img.header.oem = []) :
+    parseImage ⟨false, false, true⟩ (encodeImage digest img) = .ok (withoutOemField (img.view digest)) ∧
+    parseImage ⟨false, false, true⟩ (encodeImage digest img) ≠ .ok (img.view digest) := by
+  rw [parseImage_encode ⟨false, false, true⟩ digest img hwf
+    (fun r _ => by cases r <;> simp [descPlain]) hdig]
+  refine ⟨by simp [hoem, Image.view, Header.view, withoutOemField], ?_⟩
+  intro h
+  injection h with h
+  have h2 := congrArg (fun v => v.header.oemPresent) h
+  simp [hoem, Image.view, Header.view] at h2
 
 /-- With `oem_data = data[34:-1]` (and the description handled correctly) EVERY well-formed
 image that carries OEM data is reported wrongly. -/
 theorem shipped_oem_counterexample (digest : List Nat → List Nat) (hdig : ∀ x, (digest x).length = 16)
     (img : Image) (hwf : img.wf) (hoem : img.header.oem ≠ []) :
-    parseImage ⟨true, false⟩ (encodeImage digest img) ≠ .ok (img.view digest) := by
-  rw [parseImage_encode ⟨true, false⟩ digest img hwf
+    parseImage ⟨true, false, false⟩ (encodeImage digest img) ≠ .ok (img.view digest) := by
+  rw [parseImage_encode ⟨true, false, false⟩ digest img hwf
     (fun r _ => by cases r <;> simp [descPlain]) hdig]
   have hz : img.header.oem.length ≠ 0 := fun h => hoem (List.length_eq_zero_iff.mp h)
   intro h
@@ -110,77 +147,206 @@ theorem intended_description_witness :
     parseImage .intended (encodeImage zeroDigest witnessDesc) = .ok (witnessDesc.view zeroDigest) := by
   decide +kernel
 
+/-- `witnessDesc` has no OEM data: the tree with the two earlier repairs reads everything but
+has no OEM data field; the specification's view has it (empty). -/
+theorem shipped_oem_missing_witness :
+    parseImage ⟨false, false, true⟩ (encodeImage zeroDigest witnessDesc) =
+      .ok (withoutOemField (witnessDesc.view zeroDigest)) ∧
+    (witnessDesc.view zeroDigest).header.oemPresent = true ∧
+    (witnessDesc.view zeroDigest).header.oem = [] := by decide +kernel
+
 /-! ## Uploading -/
 
 theorem chunks_spec (n : Nat) (hn : 0 < n) (l : List Nat) :
     (chunks n l).flatten = l ∧ ∀ c ∈ chunks n l, 0 < c.length ∧ c.length ≤ n :=
   ⟨chunks_flatten n hn l, chunks_sizes n hn l⟩
 
+/-- every block is answered OK, or "in progress" with `k` further in-progress status answers
+and the final code 00h, seen by a poll the time-out still allows -/
+def GoesOn (timeout interval lat : Nat) (r : Reply) : Prop :=
+  r = .ok ∨ ∃ k, r = .inProgress k 0 ∧ k * (lat + interval) < timeout
+
+theorem goesOn_inTime {timeout interval lat : Nat} {r : Reply} (h : GoesOn timeout interval lat r) :
+    inTime timeout interval lat r := by
+  rcases h with h | ⟨k, h, hk⟩
+  · simp [h, inTime]
+  · simp [h, inTime, hk]
+
 theorem upload_exact (bs L timeout interval lat : Nat) (retry : Int) (binary : List Nat)
-    (plan : Nat → Reply) (hbs : 0 < bs) (hL : bs ≤ L) (ht : 0 < timeout)
-    (hplan : ∀ i, plan i = .ok ∨ ∃ k, plan i = .inProgress k) :
-    (uploadBinary bs timeout interval lat retry binary (Dev.init plan)).1 = .ok () ∧
+    (plan : Nat → Reply) (hbs : 0 < bs) (hL : bs ≤ L)
+    (hplan : ∀ i, GoesOn timeout interval lat (plan i)) :
+    (uploadBinary true bs timeout interval lat retry binary (Dev.init plan)).1 = .ok () ∧
     uploadExact L plan binary
-      (uploadBinary bs timeout interval lat retry binary (Dev.init plan)).2.dev.trace = true := by
-  have hb : ∀ j, benign ((Dev.init plan).plan j) := by
-    intro j
-    rcases hplan j with h | ⟨k, h⟩ <;> simp [Dev.init, h, benign]
-  obtain ⟨evs, h1, h2, h3⟩ := uploadLoop_benign timeout interval lat ht (chunks bs binary)
-    Gen.Hpm.firstBlock retry ⟨Dev.init plan, 0⟩ hb
+      (uploadBinary true bs timeout interval lat retry binary (Dev.init plan)).2.dev.trace = true := by
+  obtain ⟨evs, h1, h2, h3⟩ := uploadLoop_inTime timeout interval lat (chunks bs binary)
+    Gen.Hpm.firstBlock retry ⟨Dev.init plan, 0⟩ (fun j => by simpa [Dev.init] using goesOn_inTime (hplan j))
   have hsz : ∀ c ∈ chunks bs binary, 0 < c.length ∧ c.length ≤ L := fun c hc =>
     ⟨(chunks_sizes bs hbs binary c hc).1, Nat.le_trans (chunks_sizes bs hbs binary c hc).2 hL⟩
+  have h3' : SegX plan (chunks bs binary) Gen.Hpm.firstBlock 0 evs := by simpa [Dev.init] using h3
   obtain ⟨a, b, d⟩ := Seg_spec L plan (chunks bs binary) Gen.Hpm.firstBlock 0 evs
-    (by simpa [Dev.init] using h3) (by simp [Gen.Hpm.firstBlock]) hsz
+    (SegX_Seg _ _ _ _ _ h3') (by simp [Gen.Hpm.firstBlock]) hsz
+  have w := SegX_waits plan (blocksOf evs).length (chunks bs binary) Gen.Hpm.firstBlock 0 evs h3'
   have hne : bs ≠ 0 := by omega
   simp only [uploadBinary, hne, if_false]
   refine ⟨h1, ?_⟩
   rw [h2]
-  simp [uploadExact, Dev.init, a, b, d, chunks_flatten bs hbs binary]
+  simp [uploadExact, Dev.init, a, b, d, w, chunks_flatten bs hbs binary]
+
+/-- what `uploadLoop_stops` gives, in the vocabulary of the specification -/
+theorem upload_stops (bs L timeout interval lat : Nat) (retry : Int) (binary : List Nat)
+    (plan : Nat → Reply) (j : Nat) (hbs : 0 < bs) (hL : bs ≤ L) (ht : 0 < timeout)
+    (hj : j * bs < binary.length)
+    (hbefore : ∀ i, i < j → GoesOn timeout interval lat (plan i))
+    (hstop : stops timeout interval lat (plan j)) :
+    (uploadBinary true bs timeout interval lat retry binary (Dev.init plan)).1 = .hpmError ∧
+    ∃ tr, (uploadBinary true bs timeout interval lat retry binary (Dev.init plan)).2.dev.trace = tr ∧
+      (blocksOf tr).length = j + 1 ∧
+      ((blocksOf tr).map (·.2)).flatten = binary.take ((blocksOf tr).map (·.2)).flatten.length ∧
+      numberedFrom L 0 (blocksOf tr) = true ∧ pollsOk plan 0 tr = true ∧ waitsOk plan j 0 tr = true ∧
+      ∃ n, stopTail timeout interval lat (plan j) n ∧ trailingPolls tr = n ∧
+        (n = 0 → ∃ m d, tr.getLast? = some (Ev.block m d)) ∧ (1 ≤ n → tr.getLast? = some Ev.status) := by
+  have hjl := lt_chunks_length bs hbs binary j hj
+  obtain ⟨h1, evs, h2, h3⟩ := uploadLoop_stops timeout interval lat ht (chunks bs binary)
+    Gen.Hpm.firstBlock retry ⟨Dev.init plan, 0⟩ j hjl
+    (fun t ht => by simpa [Dev.init] using goesOn_inTime (hbefore t ht))
+    (by simpa [Dev.init] using hstop)
+  have hsz : ∀ c ∈ chunks bs binary, 0 < c.length ∧ c.length ≤ L := fun c hc =>
+    ⟨(chunks_sizes bs hbs binary c hc).1, Nat.le_trans (chunks_sizes bs hbs binary c hc).2 hL⟩
+  obtain ⟨a, b, d, e, w, n, t1, t2, t3, t4⟩ := SegA_spec (stopTail timeout interval lat) L plan (chunks bs binary)
+    Gen.Hpm.firstBlock 0 j evs (by simpa [Dev.init] using h3) (by simp [Gen.Hpm.firstBlock]) hsz
+    (fun n hn ⟨k, f, hk⟩ => by
+      simp only [Nat.zero_add] at hn hk
+      rw [hk] at hn
+      exact hn.1)
+  have hne : bs ≠ 0 := by omega
+  simp only [uploadBinary, hne, if_false]
+  refine ⟨h1, evs, by rw [h2]; simp [Dev.init], b, ?_, d, e, by simpa using w, n, by simpa using t1, t2, t3, t4⟩
+  rw [a]
+  have hsplit : binary = ((chunks bs binary).take (j + 1)).flatten ++ ((chunks bs binary).drop (j + 1)).flatten := by
+    rw [← List.flatten_append, List.take_append_drop, chunks_flatten bs hbs binary]
+  have key : ∀ A B : List Nat, binary = A ++ B → A = binary.take A.length := by
+    intro A B h
+    rw [h]
+    simp
+  exact key _ _ hsplit
 
 theorem upload_aborts (bs L timeout interval lat : Nat) (retry : Int) (binary : List Nat)
     (plan : Nat → Reply) (j c : Nat) (hbs : 0 < bs) (hL : bs ≤ L) (ht : 0 < timeout)
     (hj : j * bs < binary.length)
-    (hbefore : ∀ i, i < j → plan i = .ok ∨ ∃ k, plan i = .inProgress k)
+    (hbefore : ∀ i, i < j → GoesOn timeout interval lat (plan i))
     (herr : plan j = .err c) (hc0 : c ≠ 0) (hc1 : c ≠ 0x80) :
-    (uploadBinary bs timeout interval lat retry binary (Dev.init plan)).1 = .hpmError ∧
+    (uploadBinary true bs timeout interval lat retry binary (Dev.init plan)).1 = .hpmError ∧
     uploadAbortedAt L plan binary j
-      (uploadBinary bs timeout interval lat retry binary (Dev.init plan)).2.dev.trace = true := by
-  have hjl := lt_chunks_length bs hbs binary j hj
-  obtain ⟨h1, evs, h2, h3⟩ := uploadLoop_abort timeout interval lat ht (chunks bs binary)
-    Gen.Hpm.firstBlock retry ⟨Dev.init plan, 0⟩ j c hjl
-    (fun t ht => by rcases hbefore t ht with h | ⟨k, h⟩ <;> simp [Dev.init, h, benign])
-    (by simpa [Dev.init] using herr) hc0 hc1
+      (uploadBinary true bs timeout interval lat retry binary (Dev.init plan)).2.dev.trace = true := by
+  obtain ⟨h1, tr, h2, a, b, c', d, e, n, t1, t2, t3, t4⟩ := upload_stops bs L timeout interval lat retry binary plan j
+    hbs hL ht hj hbefore (by simp [herr, stops, hc0, hc1])
+  refine ⟨h1, ?_⟩
+  rw [h2]
+  have hn : n = 0 := by simpa [herr, stopTail] using t1
+  obtain ⟨m, dd, hl⟩ := t3 hn
+  simp only [uploadAbortedAt, a, c', d, e, hl, Bool.and_true, decide_true, Bool.true_and, decide_eq_true_eq]
+  exact b
+
+/-- The status reports that the long duration command of block `j` FAILED (final code other
+than 00h, seen in time): HpmError; blocks 0..j were sent; block j is followed by its k+1
+status polls and by nothing else. -/
+theorem upload_aborts_long_failure (bs L timeout interval lat : Nat) (retry : Int) (binary : List Nat)
+    (plan : Nat → Reply) (j k f : Nat) (hbs : 0 < bs) (hL : bs ≤ L) (ht : 0 < timeout)
+    (hj : j * bs < binary.length)
+    (hbefore : ∀ i, i < j → GoesOn timeout interval lat (plan i))
+    (hlong : plan j = .inProgress k f) (hf0 : f ≠ 0) (hf1 : f ≠ 0x80) (hk : k * (lat + interval) < timeout) :
+    (uploadBinary true bs timeout interval lat retry binary (Dev.init plan)).1 = .hpmError ∧
+    uploadAbortedLongAt L plan binary j
+      (uploadBinary true bs timeout interval lat retry binary (Dev.init plan)).2.dev.trace = true ∧
+    trailingPolls (uploadBinary true bs timeout interval lat retry binary (Dev.init plan)).2.dev.trace = k + 1 := by
+  obtain ⟨h1, tr, h2, a, b, c', d, e, n, t1, t2, t3, t4⟩ := upload_stops bs L timeout interval lat retry binary plan j
+    hbs hL ht hj hbefore (by simp [hlong, stops, hf0, hf1, hk])
+  rw [h2]
+  have hn : n = k + 1 := by
+    simp only [hlong, stopTail] at t1
+    rcases t1.2 with ⟨_, h⟩ | ⟨h, _⟩
+    · exact h
+    · omega
+  have hl := t4 (by omega)
+  refine ⟨h1, ?_, by rw [t2, hn]⟩
+  simp only [uploadAbortedLongAt, a, c', d, e, hl, Bool.and_true, decide_true, Bool.true_and, decide_eq_true_eq]
+  exact b
+
+/-- The long duration command of block `j` is still reported "in progress" when the time-out
+expires: HpmError; blocks 0..j were sent; block j is followed by status polls only - at least
+one, at most k (the final code was never seen). -/
+theorem upload_aborts_long_timeout (bs L timeout interval lat : Nat) (retry : Int) (binary : List Nat)
+    (plan : Nat → Reply) (j k f : Nat) (hbs : 0 < bs) (hL : bs ≤ L) (ht : 0 < timeout)
+    (hj : j * bs < binary.length)
+    (hbefore : ∀ i, i < j → GoesOn timeout interval lat (plan i))
+    (hlong : plan j = .inProgress k f) (hk : timeout ≤ k * (lat + interval)) :
+    (uploadBinary true bs timeout interval lat retry binary (Dev.init plan)).1 = .hpmError ∧
+    uploadAbortedLongAt L plan binary j
+      (uploadBinary true bs timeout interval lat retry binary (Dev.init plan)).2.dev.trace = true ∧
+    sawFinal k (uploadBinary true bs timeout interval lat retry binary (Dev.init plan)).2.dev.trace = false := by
+  obtain ⟨h1, tr, h2, a, b, c', d, e, n, t1, t2, t3, t4⟩ := upload_stops bs L timeout interval lat retry binary plan j
+    hbs hL ht hj hbefore (by simp [hlong, stops, hk])
+  rw [h2]
+  simp only [hlong, stopTail] at t1
+  have hn : n ≤ k := by
+    rcases t1.2 with ⟨h, _⟩ | ⟨_, h⟩
+    · omega
+    · exact h
+  have hl := t4 t1.1
+  refine ⟨h1, ?_, by simp [sawFinal, t2]; omega⟩
+  simp only [uploadAbortedLongAt, a, c', d, e, hl, Bool.and_true, decide_true, Bool.true_and, decide_eq_true_eq]
+  exact b
+
+/-- AS SHIPPED: whatever the status polls report - any final code, or "in progress" for longer
+than the time-out - every block is sent and `upload_binary` returns normally. -/
+theorem shipped_upload_ignores_status (bs L timeout interval lat : Nat) (retry : Int) (binary : List Nat)
+    (plan : Nat → Reply) (hbs : 0 < bs) (hL : bs ≤ L) (ht : 0 < timeout)
+    (hplan : ∀ i, plan i = .ok ∨ ∃ k f, plan i = .inProgress k f) :
+    (uploadBinary false bs timeout interval lat retry binary (Dev.init plan)).1 = .ok () ∧
+    ((blocksOf (uploadBinary false bs timeout interval lat retry binary (Dev.init plan)).2.dev.trace).map
+      (·.2)).flatten = binary := by
+  have hb : ∀ j, benign ((Dev.init plan).plan j) := by
+    intro j
+    rcases hplan j with h | ⟨k, f, h⟩ <;> simp [Dev.init, h, benign]
+  obtain ⟨evs, h1, h2, h3⟩ := uploadLoop_benign timeout interval lat ht (chunks bs binary)
+    Gen.Hpm.firstBlock retry ⟨Dev.init plan, 0⟩ hb
   have hsz : ∀ c ∈ chunks bs binary, 0 < c.length ∧ c.length ≤ L := fun c hc =>
     ⟨(chunks_sizes bs hbs binary c hc).1, Nat.le_trans (chunks_sizes bs hbs binary c hc).2 hL⟩
-  obtain ⟨a, b, d, e, ⟨ln, ld, hl⟩⟩ := SegA_spec L plan (chunks bs binary) Gen.Hpm.firstBlock 0 j evs
+  obtain ⟨a, _, _⟩ := Seg_spec L plan (chunks bs binary) Gen.Hpm.firstBlock 0 evs
     (by simpa [Dev.init] using h3) (by simp [Gen.Hpm.firstBlock]) hsz
   have hne : bs ≠ 0 := by omega
   simp only [uploadBinary, hne, if_false]
   refine ⟨h1, ?_⟩
   rw [h2]
-  have hpre : ((chunks bs binary).take (j + 1)).flatten =
-      binary.take ((chunks bs binary).take (j + 1)).flatten.length := by
-    have hsplit : binary = ((chunks bs binary).take (j + 1)).flatten ++ ((chunks bs binary).drop (j + 1)).flatten := by
-      rw [← List.flatten_append, List.take_append_drop, chunks_flatten bs hbs binary]
-    have key : ∀ A B : List Nat, binary = A ++ B → A = binary.take A.length := by
-      intro A B h
-      rw [h]
-      simp
-    exact key _ _ hsplit
-  simp only [uploadAbortedAt, Dev.init, List.nil_append, a, b, d, e, hl, Bool.and_true, decide_true]
-  simpa using hpre
+  simp [Dev.init, a, chunks_flatten bs hbs binary]
+
+/-- 50 bytes in 22-byte blocks; the device accepts block 1 as a long duration command and the
+first status poll reports that it FAILED (final code FFh) -/
+def witnessPlan : Nat → Reply := fun i => if i = 1 then .inProgress 0 0xFF else .ok
+
+/-- as shipped: block 2 is sent all the same and the upload "succeeds" - which is not a
+complete upload by the specification; intended: HpmError, nothing after the poll. -/
+theorem shipped_upload_witness :
+    (uploadBinary false 22 20 1 0 3 (List.range 50) (Dev.init witnessPlan)).1 = .ok () ∧
+    (uploadBinary false 22 20 1 0 3 (List.range 50) (Dev.init witnessPlan)).2.dev.trace =
+      [.block 0 (List.range 22), .block 1 ((List.range 44).drop 22), .status, .block 2 ((List.range 50).drop 44)] ∧
+    uploadExact 22 witnessPlan (List.range 50)
+      (uploadBinary false 22 20 1 0 3 (List.range 50) (Dev.init witnessPlan)).2.dev.trace = false ∧
+    (uploadBinary true 22 20 1 0 3 (List.range 50) (Dev.init witnessPlan)).1 = .hpmError ∧
+    (uploadBinary true 22 20 1 0 3 (List.range 50) (Dev.init witnessPlan)).2.dev.trace =
+      [.block 0 (List.range 22), .block 1 ((List.range 44).drop 22), .status] := by decide +kernel
 
 /-- what the source says today: block size, first block number, increment, mask, in-progress code -/
 theorem upload_configured :
     0 < Gen.Hpm.blockSize ∧ Gen.Hpm.blockSize ≤ 22 ∧ Gen.Hpm.firstBlock = 0 ∧ Gen.Hpm.blockIncr = 1 ∧
-    Gen.Hpm.blockMask = 0xFF ∧ Gen.Hpm.ccInProgress = Spec.HpmDevice.ccInProgress := by decide
+    Gen.Hpm.blockMask = 0xFF ∧ Gen.Hpm.ccInProgress = Spec.HpmDevice.ccInProgress ∧ Gen.Hpm.ccOk = 0 := by decide
 
 theorem upload_exact_configured (timeout interval lat : Nat) (retry : Int) (binary : List Nat)
-    (plan : Nat → Reply) (ht : 0 < timeout) (hplan : ∀ i, plan i = .ok ∨ ∃ k, plan i = .inProgress k) :
-    (uploadBinary Gen.Hpm.blockSize timeout interval lat retry binary (Dev.init plan)).1 = .ok () ∧
+    (plan : Nat → Reply) (hplan : ∀ i, GoesOn timeout interval lat (plan i)) :
+    (uploadBinary true Gen.Hpm.blockSize timeout interval lat retry binary (Dev.init plan)).1 = .ok () ∧
     uploadExact 22 plan binary
-      (uploadBinary Gen.Hpm.blockSize timeout interval lat retry binary (Dev.init plan)).2.dev.trace = true :=
-  upload_exact _ 22 timeout interval lat retry binary plan upload_configured.1 upload_configured.2.1 ht hplan
+      (uploadBinary true Gen.Hpm.blockSize timeout interval lat retry binary (Dev.init plan)).2.dev.trace = true :=
+  upload_exact _ 22 timeout interval lat retry binary plan upload_configured.1 upload_configured.2.1 hplan
 
 /-! ## non-vacuity -/
 
@@ -205,13 +371,29 @@ example : parseImage .intended (encodeImage zeroDigest demo) = .ok (demo.view ze
 /-- 50 bytes in 22-byte blocks, block 1 answered "in progress" with two further in-progress
 polls: three blocks numbered 0, 1, 2 and three status polls after block 1 -/
 example :
-    (uploadBinary 22 20 1 0 3 (List.range 50) (Dev.init fun i => if i = 1 then .inProgress 2 else .ok)).2.dev.trace
+    (uploadBinary true 22 20 1 0 3 (List.range 50) (Dev.init fun i => if i = 1 then .inProgress 2 0 else .ok)).2.dev.trace
       = [.block 0 (List.range 22), .block 1 ((List.range 44).drop 22), .status, .status, .status,
          .block 2 ((List.range 50).drop 44)] := by decide +kernel
 
+/-- the hypotheses of `upload_exact` are satisfiable by that plan (2·(0+1) < 20) -/
+example : ∀ i, GoesOn 20 1 0 ((fun i => if i = 1 then Reply.inProgress 2 0 else .ok) i) := by
+  intro i
+  by_cases h : i = 1
+  · exact Or.inr ⟨2, by simp [h], by decide⟩
+  · exact Or.inl (by simp [h])
+
 /-- block 1 rejected with D5h -/
 example :
-    (uploadBinary 22 20 1 0 3 (List.range 50) (Dev.init fun i => if i = 1 then .err 0xD5 else .ok)).1 = .hpmError := by
+    (uploadBinary true 22 20 1 0 3 (List.range 50) (Dev.init fun i => if i = 1 then .err 0xD5 else .ok)).1 = .hpmError := by
+  decide +kernel
+
+/-- block 1 accepted with 80h, 30 further in-progress answers, time-out 5: three polls (at 0, 2, 4),
+then HpmError; `upload_aborts_long_timeout` applies (5 ≤ 30·(1+1)) -/
+example :
+    (uploadBinary true 22 5 1 1 3 (List.range 50) (Dev.init fun i => if i = 1 then .inProgress 30 0 else .ok)).1
+      = .hpmError ∧
+    (uploadBinary true 22 5 1 1 3 (List.range 50) (Dev.init fun i => if i = 1 then .inProgress 30 0 else .ok)).2.dev.trace
+      = [.block 0 (List.range 22), .block 1 ((List.range 44).drop 22), .status, .status, .status] := by
   decide +kernel
 
 end PyIpmi.Props.C18
